@@ -170,7 +170,23 @@ class Ctx:
 def guarded(prop: Callable, case: Any, ctx: Ctx, seen: set[str] | None = None) -> Violation | None:
     """Run prop; route known-finding buckets to counters; return unknown Violation."""
     try:
-        prop(case, ctx)
+        try:
+            prop(case, ctx)
+        except Violation:
+            raise
+        except Exception as e:  # noqa: BLE001
+            # Every check feeds the library inputs it has constructed to be valid and
+            # handles the refusals it expects itself; a Piquasso exception that escapes is
+            # the library refusing a valid request (any other exception type is a bug of
+            # the harness and stays a harness error).
+            if type(e).__module__.split(".")[0] != "piquasso":
+                raise
+            tb = traceback.extract_tb(e.__traceback__)
+            frame = next((f for f in reversed(tb) if "/piquasso/" in f.filename), tb[-1])
+            raise Violation(
+                f"{ctx.pid}:{ctx.part}:unexpected:{type(e).__name__}:"
+                f"{frame.filename.split('/')[-1]}:{frame.name}",
+                f"{type(e).__name__}: {str(e)[:300]}") from e
     except Violation as v:
         if ctx.is_known(v.bucket):
             ctx.known_hits[v.bucket] += 1
